@@ -107,7 +107,8 @@ func (g *localfsEngine) localfsExec(world string, c *localfsCase) ([]localfsOpOb
 // ---------------------------------------------------------------- oracle (independent of the model)
 
 func localfsMustReject(key []byte) bool {
-	if len(key) == 0 || key[0] == '/' || bytes.IndexByte(key, 0) >= 0 {
+	// "." names the backend directory itself, not an object in it
+	if len(key) == 0 || string(key) == "." || key[0] == '/' || bytes.IndexByte(key, 0) >= 0 {
 		return true
 	}
 	for _, e := range bytes.Split(key, []byte("/")) {
